@@ -175,7 +175,7 @@ func solveAll(obls []*Obligation, dir string, timeout time.Duration, all bool, p
 			defer wg.Done()
 			defer func() { <-sem }()
 			r := solveOne(o, dir, timeout, all, order)
-			if r.Verdict != "unsat" && r.Verdict != "sat" && !all && !o.Canary {
+			if r.Verdict != "unsat" && r.Verdict != "sat" && !all && !o.Canary && !o.NoRetry {
 				// one retry with a longer limit and other solver configurations before
 				// anything is called a failure
 				r2 := solveOne(o, dir, 3*timeout, false, []int{0, 1, 2, 4, 5, 6})
